@@ -358,6 +358,82 @@ func init() {
 			}
 			return nil
 		},
+		// errors.Is / errors.As: the documented algorithm over the chain of Unwrap, with Is/As
+		// methods honoured; types are compared as go/types (no reflectlite)
+		"errors.Is": func(m *Machine, c *frame, a []value) value {
+			target := a[1].(Iface)
+			var walk func(e Iface) bool
+			walk = func(e Iface) bool {
+				for e.t != nil {
+					if target.t != nil && types.Comparable(target.t) || target.t == nil {
+						if eq := m.ifaceEq(e, target); eq.isTrue() || (!eq.isFalse() && m.branch(eq)) {
+							return true
+						}
+					}
+					if m.hasMethod(e, "Is") {
+						if r := m.invoke(c, e, "Is", nil, []value{target}).(Scalar); r.sym == nil && r.c != 0 || r.sym != nil && m.branch(r.sym) {
+							return true
+						}
+					}
+					next, many := m.unwrapErr(c, e)
+					for _, x := range many {
+						if walk(x) {
+							return true
+						}
+					}
+					e = next
+				}
+				return false
+			}
+			return boolS(walk(a[0].(Iface)))
+		},
+		"errors.As": func(m *Machine, c *frame, a []value) value {
+			tgt := a[1].(Iface)
+			if tgt.t == nil {
+				m.goPanicStr("errors: target cannot be nil")
+			}
+			pt, ok := tgt.t.Underlying().(*types.Pointer)
+			if !ok {
+				m.goPanicStr("errors: target must be a non-nil pointer")
+			}
+			T := pt.Elem()
+			_, tIsIface := T.Underlying().(*types.Interface)
+			var walk func(e Iface) bool
+			walk = func(e Iface) bool {
+				for e.t != nil {
+					if _, nat := e.v.(*Native); !nat && types.AssignableTo(e.t, T) {
+						if tIsIface {
+							m.store(tgt.v.(Ptr), e)
+						} else {
+							m.store(tgt.v.(Ptr), copyVal(e.v))
+						}
+						return true
+					}
+					if m.hasMethod(e, "As") {
+						if r := m.invoke(c, e, "As", nil, []value{tgt}).(Scalar); r.sym == nil && r.c != 0 || r.sym != nil && m.branch(r.sym) {
+							return true
+						}
+					}
+					next, many := m.unwrapErr(c, e)
+					for _, x := range many {
+						if walk(x) {
+							return true
+						}
+					}
+					e = next
+				}
+				return false
+			}
+			return boolS(walk(a[0].(Iface)))
+		},
+		"errors.Unwrap": func(m *Machine, c *frame, a []value) value {
+			e := a[0].(Iface)
+			if e.t == nil {
+				return Iface{}
+			}
+			next, _ := m.unwrapErr(c, e)
+			return next
+		},
 		"(*sync.Once).Do": func(m *Machine, c *frame, a []value) value {
 			if m.pools == nil {
 				m.pools = map[string][]value{}
@@ -741,4 +817,43 @@ func (m *Machine) syncMap(p Ptr) *Map {
 		m.syncMaps[k] = &Map{}
 	}
 	return m.syncMaps[k]
+}
+
+// hasMethod: does the dynamic type of e have an exported method of that name?
+func (m *Machine) hasMethod(e Iface, name string) bool {
+	if _, nat := e.v.(*Native); nat {
+		return false
+	}
+	return m.prog.MethodSets.MethodSet(e.t).Lookup(nil, name) != nil
+}
+
+// unwrapErr: the result of e.Unwrap() — a single error, or several (Unwrap() []error).
+func (m *Machine) unwrapErr(c *frame, e Iface) (Iface, []Iface) {
+	if nat, ok := e.v.(*Native); ok {
+		if ne, ok := nat.data.(*nativeErr); ok && ne.wrapped != nil {
+			return ne.wrapped.(Iface), nil
+		}
+		return Iface{}, nil
+	}
+	if !m.hasMethod(e, "Unwrap") {
+		return Iface{}, nil
+	}
+	fn := m.prog.LookupMethod(e.t, nil, "Unwrap")
+	res := fn.Signature.Results()
+	if res.Len() != 1 {
+		return Iface{}, nil
+	}
+	r := m.invoke(c, e, "Unwrap", nil, nil)
+	if _, isSlice := res.At(0).Type().Underlying().(*types.Slice); isSlice {
+		sl := r.(Slice)
+		var out []Iface
+		for k, n := 0, m.concLen(sl.len, "Unwrap []error"); k < n; k++ {
+			out = append(out, m.sliceElem(sl, k).(Iface))
+		}
+		return Iface{}, out
+	}
+	if x, ok := r.(Iface); ok {
+		return x, nil
+	}
+	return Iface{}, nil
 }
